@@ -116,7 +116,7 @@ func (h *Hub) ServeHTTP(w http.ResponseWriter, r *http.Request) {
 	connectionStateDetail := service.ConnectionStateDetail()
 	if connectionStateDetail.State() == api.ConnectionStateQueued {
 		connectionStateDetail.SetState(api.ConnectionStateReceivedPairingRequest)
-		h.hubReader.ServicePairingDetailUpdate(ski, connectionStateDetail)
+		h.notifyPairingDetail(ski, connectionStateDetail)
 	}
 
 	remoteService = service
